@@ -149,15 +149,16 @@ FINDINGS = [
             W(2, "flat", "b 0 0 1 int sum"),
             "the inter-node reduce-scatter/allgather works on seg_count = count / inter_comm_size elements per node and drops "
             "the remainder"),
-    Finding("allreduce/smp_rsag_lr", "0<count<nodes:wrong-result", P("M > 1 and 0 < c < M"), {WRONG},
+    Finding("allreduce/smp_rsag_lr", "0<count<nodes:wrong-result", P("M > 1 and 0 < c < M and op not in ('max', 'min', 'maxloc', 'minloc')"), {WRONG},
             W(3, "flat", "b 0 0 1 int sum"),
             "with count < inter_comm_size every segment offset is 0 == last_segment_ptr, so every step sends and reduces the "
-            "whole remainder again"),
+            "whole remainder again (harmless only for idempotent operators)"),
     Finding("allreduce/smp_rsag_rab", "count%(2*nodes)!=0:wrong-result", P("pow2 and M > 1 and c % (2 * M) != 0"), {WRONG},
             W(2, "flat", "b 0 0 2 int sum"),
             "recursive halving over curr_count = count/2, count/4, ... (one halving too many, doubled again for the "
             "allgather) loses the remainders: only counts that are multiples of 2*inter_comm_size come out right"),
-    Finding("allreduce/rab1", "np=1:uninitialised-recv_cnt:crash", P("np == 1"), {CRASH}, W(1, "flat", "b 0 0 1 int sum"),
+    Finding("allreduce/rab1", "np=1:uninitialised-recv_cnt:crash", P("np == 1"), {CRASH, DEAD, WRONG, STRAY, GUARD},
+            W(1, "flat", "b 0 0 1 int sum"),
             "with one rank the halving loop is not entered and recv_cnt is used uninitialised in memcpy/allgather"),
     Finding("allreduce/rab1", "dt=holes:memcpy-over-extent:stray-write", P("holes and c > 0 and np > 1 and pow2"), {STRAY},
             W(2, "flat", "b 0 0 1 vec user"),
@@ -174,7 +175,7 @@ FINDINGS = [
             "the generic ompi reduce does not handle a communicator of one rank (sends to rank -333, or leaves recvbuf unset)"),
     Finding("reduce/flat_tree", "MPI_IN_PLACE-dereferenced:crash", P("mode == 'ip' and c > 0"), {CRASH}, W(2, "flat", "ip 0 0 1 int sum"),
             "the root uses sbuf as a buffer without testing for MPI_IN_PLACE"),
-    Finding("reduce/NTSL", "np=1:deadlock", P("np == 1 and mode != 'ip'"), {DEAD, CRASH}, W(1, "flat", "b 0 0 1 int sum"),
+    Finding("reduce/NTSL", "np=1:deadlock", P("np == 1"), {DEAD, CRASH}, W(1, "flat", "b 0 0 1 int sum"),
             "with one rank the root posts a receive from itself"),
     Finding("reduce/NTSL reduce/arrival_pattern_aware reduce/rab", "MPI_IN_PLACE-dereferenced:crash",
             P("mode == 'ip' and c > 0"), {CRASH},
@@ -186,18 +187,19 @@ FINDINGS = [
     Finding("reduce/scatter_gather", "nonroot-recvbuf-used-as-scratch", P("np > 1 and c > 0 and mode in ('b', 'ip')"), {NONROOT},
             W(2, "flat", "b 0 0 1 int sum"),
             "a temporary buffer is only allocated when recvbuf is NULL; a non-NULL recvbuf of a non-root rank is overwritten"),
-    Finding("reduce/scatter_gather", "dt=holes:memcpy-over-extent:stray-write", P("holes and c > 0"), {STRAY},
+    Finding("reduce/scatter_gather", "dt=holes:memcpy-over-extent:stray-write", P("holes and c > 0 and np > 1"), {STRAY},
             W(2, "flat", "b 0 0 1 vec user"), "memcpy(recvbuf, recv_ptr, extent * count) overwrites the holes of a derived datatype"),
     # ---------------------------------------------------------------------------------------------------- bcast --------
     Finding("bcast/SMP_linear", "one-rank-per-host:duplicate-messages", P("K == 1 and np > 1"),
             {CRASH, DEAD, WRONG, STRAY, ERR}, W(2, "flat", "b 0 0 1 int none", "b 1 0 1 int none"),
             "with num_core == 1 to_inter == to_intra: every leader sends the message twice and the last one sends it back to "
             "rank 0; the unmatched messages are received by the next bcast (wrong data, truncation) or hit a finished rank"),
-    Finding("bcast/arrival_scatter", "count<np:fallback-calls-itself:crash", P("c < np and np > 1"), {CRASH},
+    Finding("bcast/arrival_scatter", "count<np:fallback-calls-itself:crash", P("(c < np or lay == 'rev') and np > 1"), {CRASH},
             W(2, "flat", "b 0 0 1 int none"),
-            "for count < size the algorithm calls colls::bcast, i.e. itself when it is the selected algorithm: unbounded recursion"),
+            "for count < size the algorithm calls colls::bcast, i.e. itself when it is the selected algorithm: unbounded recursion "
+            "(also inside MPI_Comm_split, which broadcasts a few integers with the selected algorithm)"),
     Finding("bcast/arrival_pattern_aware", "late-rank:stale-message-consumed-by-next-bcast", P("np > 1"),
-            {CRASH, DEAD, WRONG, STRAY, ERR}, W(2, "flat", "b 0 0 0 int none 1 1", "b 1 0 3 int none 2 -1"),
+            {CRASH, DEAD, WRONG, STRAY, ERR}, W(2, "flat", "b 0 0 0 int none 1 1", "b 1 0 3 int none 2 -1"), crash=False, what=
             "a bcast in which a rank arrives late leaves a message behind that the next bcast of the same communicator "
             "receives as its data"),
     Finding("bcast/flattree_pipeline", "count>segment-not-multiple:tail-not-sent:wrong-result",
@@ -205,7 +207,7 @@ FINDINGS = [
             "pipe_length = count / segment segments are sent, the last count % segment elements never are"),
     Finding("bcast/ompi_pipeline bcast/ompi", "count=0:SIGFPE", P("c == 0 and np > 1"), {CRASH}, W(2, "flat", "b 0 0 0 int none"),
             "count 0 gives a segment count of 0 and the generic ompi bcast divides by it"),
-    Finding("bcast/ompi_split_bintree", "small-message-falls-back-to-SMP_linear", P("K == 1 and np > 1"),
+    Finding("bcast/ompi_split_bintree", "small-message-falls-back-to-SMP_linear", P("K == 1 and np > 1 and (c // 2) * size < 1024"),
             {CRASH, DEAD, WRONG, STRAY, ERR}, W(2, "flat", "b 0 0 1 int none", "b 1 0 1 int none"),
             "messages too small to be split are handed to bcast__SMP_linear, which is wrong with one rank per host",
             via="bcast/SMP_linear"),
@@ -219,7 +221,7 @@ FINDINGS = [
     # ---------------------------------------------------------------------------------------------------- barrier ------
     Finding("barrier/ompi_two_procs", "np!=2:not-checked", P("np != 2"), {CRASH, DEAD, BARRIER}, W(3, "flat", "b 1 0 0 int none"),
             "the two-process barrier does not test the communicator size: ranks pair up as (rank+1)&1"),
-    Finding("ibarrier/nbc", "ranks-released-before-all-entered", P("np > 2"), {BARRIER}, W(3, "flat", "nb 1 0 0 int none"),
+    Finding("ibarrier/nbc", "ranks-released-before-all-entered", P("np > 2 and root != 0"), {BARRIER}, W(3, "flat", "nb 1 0 0 int none"),
             "rank 0 starts its sends to every rank together with its receives, so a rank is released as soon as it entered "
             "itself: MPI_Ibarrier + MPI_Wait returns before the last rank has entered", crash=False),
     # ---------------------------------------------------------------------------------------------------- scatter ------
@@ -230,6 +232,16 @@ FINDINGS = [
     Finding("scatter/mvapich2_two_level_binomial scatter/mvapich2_two_level_direct", "MPI_IN_PLACE:sendbuf-modified",
             P("mode == 'ip' and np > 1 and c > 0"), {SENDMOD, WRONG}, W(2, "flat", "ip 1 0 1 int none"),
             "with MPI_IN_PLACE at a root other than rank 0 the root's send buffer is overwritten"),
+    Finding("scatter/mvapich2_two_level_binomial scatter/mvapich2_two_level_direct", "cyclic-placement:blocks-in-host-order:wrong-result",
+            P("1 < N < np and c > 0 and not blocked"), {WRONG, SENDMOD, CRASH}, W(4, "cyc2", "b 0 0 1 int none"),
+            "the blocks are sent node after node: when the ranks of a node are not consecutive they reach the wrong ranks "
+            "(the mvapich2 selector tests is_blocked(), the algorithm itself does not)", crash=False),
+    Finding("allgather/mvapich2_smp gather/mvapich2_two_level scatter/mvapich2_two_level_binomial scatter/mvapich2_two_level_direct",
+            "communicator-not-in-pid-order:leaders-ordered-by-pid:wrong-result", P("lay == 'rev' and np > 1 and c > 0"),
+            {WRONG, STRAY, SENDMOD, CRASH}, W(2, "rev", "b 0 0 1 int none"),
+            "Comm::init_smp takes the smallest actor id of a host as its leader and orders the leaders communicator by actor id: "
+            "on a communicator whose ranks are not in actor-id order (e.g. MPI_Comm_split with descending keys) the two-level "
+            "algorithms deliver the blocks in actor-id order instead of rank order", crash=False),
     # ---------------------------------------------------------------------------------------------------- gather -------
     Finding("gather/mvapich2_two_level", "leader_comm_rank=leader_comm->size():crash", P("1 < N < np and c > 0 and (not uniform or not rootleader)"),
             {CRASH, DEAD, WRONG}, W(4, "blk2", "b 1 0 1 int none"),
@@ -250,7 +262,7 @@ FINDINGS = [
     Finding("reduce_scatter/ompi_basic_recursivehalving", "zero-recvcount:wrong-result",
             P("np > 1 and total > 0 and min(cnts) == 0"), {WRONG, CRASH, DEAD}, W(2, "flat", "b 0 1 3 int sum"),
             "when some rank has recvcounts[i] == 0 the blocks of the other ranks are reduced wrongly", crash=False),
-    Finding("reduce_scatter/ompi_butterfly", "np=1:result-not-copied:wrong-result", P("np == 1 and c > 0 and mode == 'b'"),
+    Finding("reduce_scatter/ompi_butterfly", "np=1:result-not-copied:wrong-result", P("np == 1 and total > 0 and mode == 'b'"),
             {WRONG}, W(1, "flat", "b 0 0 1 int sum"), "with one rank the receive buffer is left untouched"),
     # ------------------------------------------------------------------------------------------- non-blocking ----------
     Finding("iallreduce/nbc ireduce/nbc iscan/nbc ireduce_scatter/nbc ireduce_scatter_block/nbc",
